@@ -585,6 +585,12 @@ pub fn check(ctx: &Ctx) {
     }
     // SEIPDv2 to a v4 key (v6 PKESK for a v4 X25519 key)
     cfgs.push(base(Enc::V2(9, 1, 0), vec![EskSpec::Key(KeyKind::Ed25519V4, false), EskSpec::Password(0)]));
+    // ... addressed and anonymous, for every v4 key kind
+    for &k in &v4_keys {
+        for anon in [false, true] {
+            cfgs.push(base(Enc::V2(7, 2, 0), vec![EskSpec::Key(k, anon)]));
+        }
+    }
     for cfg in &cfgs {
         let mut cands: Vec<Secret> = Vec::new();
         let mut first_key: Option<usize> = None;
@@ -689,7 +695,7 @@ pub fn check(ctx: &Ctx) {
     ctx.run_space(
         "recipient_sets_x_presented_secrets",
         true,
-        "messages to recipient sets (each public-key algorithm addressed/anonymous; passwords x 3 S2K kinds; mixed sets of 2-3, thorough: every ordered pair of recipient keys and every key next to every password kind; SEIPDv1 + v3 PKESK/v4 SKESK and SEIPDv2 + v6) x every ordered selection of up to 2 (thorough 4) presented secrets out of {recipient keys, an unrelated key of the same kind, recipient passwords, an unrelated password, the real session key, a wrong session key} x decrypt_the_ring abort_early on/off (+ the simple entry points for single secrets); locked recipient keys with no / wrong / right / wrong+right key password; wrong session keys of 4 shapes; a decoy key forged into the PKESK recipient field. Oracle (set arithmetic): a presented recipient secret => the plaintext; none => an error and no plaintext byte (SEIPDv2: at most a prefix); check-all with a wrong session key next to a good secret => an error.",
+        "messages to recipient sets (each public-key algorithm addressed/anonymous; passwords x 3 S2K kinds; mixed sets of 2-3, thorough: every ordered pair of recipient keys and every key next to every password kind; SEIPDv1 + v3 PKESK/v4 SKESK and SEIPDv2 + v6, the latter also to every v4 key kind addressed and anonymous) x every ordered selection of up to 2 (thorough 4) presented secrets out of {recipient keys, an unrelated key of the same kind, recipient passwords, an unrelated password, the real session key, a wrong session key} x decrypt_the_ring abort_early on/off (+ the simple entry points for single secrets); locked recipient keys with no / wrong / right / wrong+right key password; wrong session keys of 4 shapes; a decoy key forged into the PKESK recipient field. Oracle (set arithmetic): a presented recipient secret => the plaintext; none => an error and no plaintext byte (SEIPDv2: at most a prefix); check-all with a wrong session key next to a good secret => an error.",
         cases.into_par_iter(),
         run,
     );
